@@ -314,8 +314,79 @@ pub fn strategy() -> impl Strategy<Value = Case> {
         })
 }
 
+/// "... or in one that has already composed any number of other words": one context per shard lives
+/// through ALL cases of the shard (thousands of distinct word parts), its store is a fixed file and it
+/// never learns; every target text is compared with a brand-new context over the same files.
+pub struct LongLived {
+    sb: Sandbox,
+    opts: Opts,
+    warm: Ctx,
+    texts: usize,
+}
+
+const FIXED_STORE: &str = "{\"onno\":\"\u{0985}\u{09A8}\u{09CD}\u{09AF}\",\"sesh\":\"\u{09B6}\u{09C7}\u{09B7}\",\"a\":\"\u{0986}\u{0983}\",\"park\":\"\u{09AA}\u{09BE}\u{09B0}\u{0995}\"}";
+
+fn mk_long_lived(shard: usize) -> LongLived {
+    let sb = Sandbox::new();
+    std::fs::write(sb.selection_file(), FIXED_STORE).expect("store");
+    let mut opts = Opts::parse("s");
+    opts.english = shard & 1 != 0;
+    opts.smart = shard & 2 != 0;
+    opts.ansi = shard & 4 != 0 && shard & 8 != 0;
+    let warm = Ctx::new(opts, &sb).expect("context");
+    LongLived { sb, opts, warm, texts: 0 }
+}
+
+fn long_lived_case(c: &Case, lo: &mut LongLived, st: &mut Stats) -> Result<(), Failure> {
+    let target = c.target();
+    if target.is_empty() || !target.chars().all(|ch| crate::driver::keys().has_char(ch)) {
+        return Ok(());
+    }
+    let pf = |p: crate::driver::PanicInfo| fail(&panic_kind(&p), p.to_string(), c);
+    let fresh = Ctx::new(lo.opts, &lo.sb).map_err(pf)?;
+    lo.warm.finish().map_err(pf)?;
+    let chars: Vec<char> = target.chars().collect();
+    for (i, ch) in chars.iter().enumerate() {
+        let sel = if i + 1 == chars.len() { c.final_sel } else { 0 };
+        // junk-then-backspace bursts in the long-lived context only
+        if i > 0 {
+            let (junk, _) = &c.script[i % c.script.len()];
+            for j in junk.chars() {
+                lo.warm.ch(j, 0).map_err(pf)?;
+            }
+            for _ in junk.chars() {
+                lo.warm.backspace(false).map_err(pf)?;
+            }
+        }
+        let a = lo.warm.ch(*ch, sel).map_err(pf)?;
+        let b = fresh.ch(*ch, sel).map_err(pf)?;
+        if a != b {
+            return Err(fail(
+                "history-dependent-suggestion-long-lived-context",
+                format!("text {:?} ({}), after {} other texts in this context: long-lived context shows {} but a brand-new context shows {}", &target[..=i.min(target.len() - 1)], lo.opts.letters(), lo.texts, a.short(), b.short()),
+                c,
+            ));
+        }
+    }
+    lo.warm.finish().map_err(pf)?;
+    lo.texts += 1;
+    if lo.sb.read_selections().map(|b| b != FIXED_STORE.as_bytes()).unwrap_or(true) {
+        st.skip("case-invalid-store-changed");
+    }
+    if lo.texts == 300 {
+        st.label("long-lived-context-reached-300-texts");
+    }
+    let word = ref_split(&target, false).1;
+    if word.chars().count() >= 3 && lo.texts > 50 {
+        st.nontrivial(hash_of(&(lo.opts.letters(), &target, lo.texts)), || json!({"opts": lo.opts.letters(), "target": target, "texts_typed_before_in_this_context": lo.texts}));
+    }
+    Ok(())
+}
+
 pub fn run(run: &Run) {
     run.sharded("warm-vs-fresh", 16, run.tier.pick(350, 9000), 400, strategy, |_| (), |c: &Case, st, _| run_case(c, st));
+    run.sharded("long-lived-context-vs-fresh", 16, run.tier.pick(450, 6000), 0, strategy, mk_long_lived, |c: &Case, st, lo| long_lived_case(c, lo, st));
+    run.require_label("long-lived-context-reached-300-texts", 8);
     run.require_label("store-populated", 50);
     run.require_label("related-warm-up", 50);
     run.require_label("script-has-backspace", 50);
